@@ -223,11 +223,11 @@ def run(ctx):
                                                                                                         "C01 judges against whatever get_default hands out)")]
     # ---- leg A
     rep.proof = coq_prove(ctx, "C01", ["theories/Properties/C01.vo"])
-    # ---- implementation
+    # ---- implementation: default build always; thorough adds a release build and a `tracing/max_level_info` build
     binpath, info = D.build(ctx, rep)
     if binpath is None:
         return rep
-    pool, smax = info["pool"], info["static_max"]
+    pool = info["pool"]
     if len(pool) != 64:
         rep.tie("pool", False, "expected 64 pool entries, harness reports %d" % len(pool))
         return rep
@@ -240,12 +240,35 @@ def run(ctx):
         for i in range(n):
             malformed = (i % 7 == 6)
             cases[("m%d" if malformed else "g%d") % i] = gen_case(ctx.rng, pool, malformed)
+    good = explore(ctx, rep, fx, "debug", binpath, info, cases)
+    if ctx.thorough() and not ctx.replay:
+        for tag, kw in (("release", {"release": True}), ("max_level_info", {"features": ["info"]})):
+            extra = {"%s:%s%d" % (tag, "m" if i % 7 == 6 else "g", i): gen_case(ctx.rng, pool, i % 7 == 6) for i in range(4000)}
+            b2, info2 = D.build(ctx, rep, **kw)
+            if b2 is None:
+                continue
+            # the feature build lands on the same path as the default one: keep a private copy, restore the default afterwards
+            keep = os.path.join(ctx.work, "h_dispatch_" + tag)
+            import shutil
+            shutil.copyfile(b2, keep)
+            os.chmod(keep, 0o755)
+            if tag == "max_level_info" and info2["static_max"] != 3:
+                rep.tie("build:max_level_info", False, "STATIC_MAX_LEVEL is %s, expected INFO(3)" % info2["static_max"])
+            explore(ctx, rep, fx, tag, keep, info2, extra)
+        D.build(ctx, rep)
+    rep.samples = [{"history": D.case_text(c).splitlines()} for c in list(good.values())[:2]] + [{"pool_entries": len(pool), "static_max": info["static_max"]}]
+    return rep
+
+
+def explore(ctx, rep, fx, tag, binpath, info, cases):
+    """Run `cases` on one build of the harness: oracle on the implementation, then the model on the same cases and the diff."""
+    pool, smax = info["pool"], info["static_max"]
     ctx.log("running %d histories on the implementation" % len(cases))
     impl = D.run_impl(ctx, binpath, cases)
     bad_runs = [cid for cid in cases if cid not in impl or impl[cid]["rc"] != 0 or len(impl[cid]["out"]) != len(cases[cid]["ops"])]
     if bad_runs:
         c = bad_runs[0]
-        rep.tie("run:h_dispatch", False, "%d histories crashed / hung / truncated" % len(bad_runs),
+        rep.tie("run:h_dispatch:" + tag, False, "%d histories crashed / hung / truncated" % len(bad_runs),
                 {"case": cases[c], "impl": impl.get(c)})
     # ---- oracle
     judged_total = 0
@@ -267,7 +290,7 @@ def run(ctx):
                 rep.count("emit:delivered" if r["del"] else "emit:not-delivered")
         if vio and len(rep.violations) >= 3:
             if len(rep.violations) < 10:   # enough shrunk replays already: report the rest as found
-                rep.violation(vio[0][0], {"cols": case["cols"], "ops": case["ops"], "text": D.case_text(case), "found_in": cid})
+                rep.violation(vio[0][0], {"cols": case["cols"], "ops": case["ops"], "text": D.case_text(case), "found_in": cid, "build": tag})
         elif vio:
             what, at = vio[0]
 
@@ -278,12 +301,12 @@ def run(ctx):
             rc, recs2 = D.run_impl_one(binpath, small)
             v2 = oracle(pool, smax, small, recs2)[0]
             rep.violation(v2[0][0] if v2 else what, {"cols": small["cols"], "ops": small["ops"], "text": D.case_text(small),
-                                                      "observed": recs2, "found_in": cid})
-    rep.hist["emissions judged against the current collector's own answers"] = judged_total
+                                                      "observed": recs2, "found_in": cid, "build": tag})
+    rep.count("emissions judged against the current collector's own answers", judged_total)
     # ---- model + tie
     try:
         good = {cid: c for cid, c in cases.items() if cid not in bad_runs}
-        model = D.run_model(ctx, pool, smax, good, fx, what=("run",), tag="cases")
+        model = D.run_model(ctx, pool, smax, good, fx, what=("run",), tag="cases_" + tag)
         dis = []
         for cid, case in good.items():
             d = D.diff_case(pool, case, impl[cid]["out"], model[cid]["run"])
@@ -291,10 +314,8 @@ def run(ctx):
                 d["case_id"] = cid
                 d["text"] = D.case_text(case)
                 dis.append(d)
-        rep.tie("correspondence:run_case", not dis, "%d of %d histories disagree" % (len(dis), len(good)), dis[:1] or None)
-        rep.traces_validated = len(good) - len(dis)
+        rep.tie("correspondence:run_case:" + tag, not dis, "%d of %d histories disagree" % (len(dis), len(good)), dis[:1] or None)
+        rep.traces_validated += len(good) - len(dis)
     except Exception as ex:
-        rep.tie("model-eval", False, str(ex)[:400])
-    some = [c for cid, c in cases.items() if cid not in bad_runs][:3]
-    rep.samples = [{"history": D.case_text(c).splitlines()} for c in some[:2]] + [{"pool_entries": len(pool), "static_max": smax}]
-    return rep
+        rep.tie("model-eval:" + tag, False, str(ex)[:400])
+    return {cid: c for cid, c in cases.items() if cid not in bad_runs}
